@@ -40,7 +40,7 @@ def rand_leaf(rng, hashable=False):
     if r < 0.65:
         return bytes(rng.randrange(256) for _ in range(rng.randint(0, 6)))
     if r < 0.8:
-        return rng.choice([0.5, -1.25, 1e100, 3.141592653589793, 1e-7, 0.0, 100.0])
+        return rng.choice([0.5, -1.25, 1e100, 3.141592653589793, 1e-7, 0.0, -0.0, 100.0, 1.0, 2.0])
     if r < 0.9:
         return rng.choice([True, False])
     return None
@@ -99,7 +99,7 @@ def deep_same(a, b):
     if type(a) is not type(b):
         return False
     if isinstance(a, float):
-        return a == b or (a != a and b != b)
+        return repr(a) == repr(b)       # sign of zero included
     if isinstance(a, (list, tuple, deque)):
         return len(a) == len(b) and all(deep_same(x, y) for x, y in zip(a, b))
     if isinstance(a, dict):  # dict, Counter, defaultdict
